@@ -64,18 +64,73 @@ T = [
      "the author's notes also pointed at a pre-existing defect (mis-nested brackets a{s(ii}) accepted): generators for mis-nested signatures were added to C16/C01, which then reported it; repaired in /repo (8064dc2)"),
     ("C17-a", "C17", "sub-agent", "dispatch looks up pending calls only for METHOD_RETURN/ERROR while the timeout is still removed for any message with a matching REPLY_SERIAL",
      "main-loop driven completion; a signal or method call carrying REPLY_SERIAL of an outstanding call; the real reply never arrives",
-     {"C17": "see INDEX note"},
-     "first missed: the scripted peer gained non-reply messages carrying REPLY_SERIAL (see DESIGN 10.6 for the final status)"),
+     {"C17": "C17:never-completed:timeout-lost"},
+     "first missed: the scripted peer gained SIGNAL / METHOD_CALL messages carrying the REPLY_SERIAL of an outstanding call, and the oracle a logical 'timeout lost' condition; this also surfaced a genuine deviation on the unchanged tree (a non-reply message with a matching REPLY_SERIAL completes the call: C17:completed-by-non-reply:*, recorded as known)"),
     ("C18-a", "C18", "sub-agent", "BecomeMonitor releases only names the connection owns as primary; queue entries are kept",
      "connection queued (not owner) for a name becomes a monitor; the owner later releases the name or disconnects",
      {"C18": "C18:invariant:a-monitor-is-in-the-queue-of-name-* (hook H1), C18:hang:*"}, ""),
     ("C19-a", "C19", "sub-agent", "try_send_activation_failure stops at the first waiter whose connection is gone",
      ">= 2 waiters on one pending activation; a waiter that is not last disconnects while pending; the activation fails",
-     {"C19": "see INDEX note"},
-     "first missed: C19 gained waiters that disconnect while the activation is pending (see DESIGN 10.6 for the final status)"),
+     {"C19": "C19:waiter-without-error-after-failed-start:*, C19:hang:departure+*"},
+     "first missed: C19 gained dedicated rounds in which waiters (never the last in arrival order) disconnect while the start is pending, with gated service stubs so that the disconnect is acknowledged by the bus before the start ends"),
     ("C20-a", "C20", "sub-agent", "a refused registration on an occupied path still overwrites the fallback flag of the existing registration",
      "register P; refused registration of P with the opposite fallback flag; call to a path strictly below P",
      {"C20": "C20:dispatch-order:*"}, ""),
+    ("C01-b", "C01", "sub-agent (round 2)", "UTF-8 validator's ASCII fast path swallows a NUL following an ASCII byte (same idea as C16-a, found independently)",
+     "hand-built message with a STRING containing a NUL directly after an ASCII byte",
+     {"C01": "C01:accepted-but-invalid:string-embedded-nul", "C16": "C16:utf8:accepted-but-invalid:nul"}, ""),
+    ("C02-b", "C02", "sub-agent (round 2)", "_dbus_header_update_lengths writes the body length in host order",
+     "message in the non-host byte order locked/marshalled without any iterator access; non-empty body",
+     {"C02": "C02:foreign-remarshal-differs, C02:swap-n2f-invalid:*", "C12": "C12:invalid-after-edit:*:start"}, ""),
+    ("C03-b", "C03", "sub-agent (round 2)", "bus_dispatch skips header sanitising for messages addressed to org.freedesktop.DBus",
+     "raw client placing unknown fields / CONTAINER_INSTANCE on a driver call + a monitor or eavesdrop=true matcher",
+     {"C03": "C03:unknown-field-delivered:driver-call:to-monitor / :to-eavesdropper, C03:container-instance-delivered:*"},
+     "first missed: C03 sessions gained eavesdropping clients and monitors whose every frame is inspected like any receiver's"),
+    ("C04-b", "C04", "sub-agent (round 2)", "bus_service_swap_owner announces the last queue entry as the new owner",
+     "owner allowing replacement + another waiter already queued + a third connection requesting with REPLACE_EXISTING",
+     {"C04": "C04:request-differs:replace"}, ""),
+    ("C05-b", "C05", "sub-agent (round 2)", "stamp generation bumped after the addressed recipient was marked: it is matched again by its own eavesdrop rule",
+     "addressed recipient holding an eavesdrop=true rule matching the message; NO_REPLY call, unicast signal, return or error",
+     {"C05": "C05:delivered-2-times:*:holding-eavesdrop-rule", "C07": "C07:delivered-2-times", "C18": "C18:shown-2-times:bus-signal:NameLost"},
+     "first missed by C05 (caught by C07/C18): C05 recipients and bystanders now hold plain and eavesdrop rules; exactly-once is judged per connection"),
+    ("C06-b", "C06", "sub-agent (round 2)", "send_interface rules made symmetric: allow rules naming an interface match messages without INTERFACE",
+     "policy where an interface-qualified allow separates allowed from denied; a method call without INTERFACE field",
+     {"C06": "C06:decision-differs:send:*"}, ""),
+    ("C07-b", "C07", "sub-agent (round 2)", "rules naming a departing unique name are found by prefix comparison (strncmp)",
+     "a rule naming ':1.1x' held by someone; connection ':1.1' holding a rule itself disconnects",
+     {"C07": "C07:not-delivered:sender, C07:remove-match:2-replies"},
+     "first missed: a quarter of the C07 scenarios now burn unique names so that live clients have prefix-related names, and leavers often hold a rule"),
+    ("C08-b", "C08", "sub-agent (round 2)", "rejection counter reset in send_ok()",
+     "handshake that obtains OK, sends CANCEL instead of BEGIN, and repeats between rejections",
+     {"C08": "C08:unbounded-rejections"}, ""),
+    ("C09-b", "C09", "sub-agent (round 2)", "bus_connections_check_reply no longer checks who sends the reply",
+     "requested-replies-only policy; outstanding call A->B; third connection C sends a reply to A with that serial",
+     {"C09": "C09:pending-list-differs:*, C09:call-refused:access-denied, C09:noreply-without-cause, ..."}, ""),
+    ("C10-b", "C10", "sub-agent (round 2)", "auth_timeout no longer expires connections that authenticated but never said Hello",
+     "max_incomplete_connections connections that complete AUTH+BEGIN and then stay silent past auth_timeout",
+     {"C10": "C10:newcomer-starved"},
+     "first missed: C10's incomplete-connection attack gained authenticated-silent and mixed variants"),
+    ("C11-b", "C11", "sub-agent (round 2)", "loader's read-size hint rounds the remaining length of a partial fd-carrying message up to 8",
+     "fd passing negotiated; message with fds whose length is not a multiple of 8 split over two reads; another fd-carrying message queued right behind",
+     {"C11": "C11:daemon-fd:sender-disconnected:*"},
+     "first missed (the loader harness ignores the hint, as the hint only matters with a real socket): C11 gained the daemon-level descriptor mode"),
+    ("C12-b", "C12", "sub-agent (round 2)", "in-place fast path for replacing a string header field leaves the old tail in the alignment padding",
+     "replacing an existing, non-last string field by a value >= 2 bytes shorter within the same 8-byte block",
+     {"C12": "C12:invalid-after-edit:padding-not-nul:*", "C03": "C03:bus-sent-invalid-message:padding-not-nul (sender stamping forwards an invalid message)"}, ""),
+    ("C13-b", "C13", "sub-agent (round 2)", "pending replies counted per (caller, recipient) pair",
+     "caller at max_replies_per_connection calling a different recipient",
+     {"C13": "C13:invariant:N-pending-replies-exceed-max_replies_per_connection (hook H1), C13:hang:barrier", "C09": "same invariant"}, ""),
+    ("C14-b", "C14", "sub-agent (round 2)", "replacement_block_replace writes the array-length fixups before the last fallible step",
+     "replacing a string header field by a longer value with the LAST allocation of the call failing",
+     {"C14": "C14:lib:edit:assert-not-reached:..., C14:lib:edit:assert:dbus-string.c:..."}, ""),
+    ("C15-b", "C15", "sub-agent (round 2)", "pending-fd timer re-armed whenever the pending count drops but stays above zero",
+     "surplus descriptor (announce 1, attach 2) followed by well-formed fd messages at intervals shorter than pending_fd_timeout",
+     {"C15": "see INDEX note"},
+     "first missed: C15 gained the surplus-then-steady-traffic history shape (final status in DESIGN 10.6)"),
+    ("C16-b", "C16", "sub-agent (round 2)", "interface validator looks for '.' in the whole DBusString instead of the given range",
+     "predicate reached through message parsing (sub-range of the header buffer) with a one-element name followed by a '.' later in the header",
+     {"C01": "C01:accepted-but-invalid:bad-interface-name:no-dot", "C16": "C16:interface:verdict-depends-on-surrounding-bytes"},
+     "first missed by C16 (caught by C01): the C16 harness now also evaluates every predicate on the same bytes embedded in a larger string"),
     ("C14-a", "C14", "sub-agent", "RemoveMatch removes first and re-adds on ack failure, ignoring a failing re-add",
      "two consecutive allocation failures during RemoveMatch of a held rule",
      {"C14": "C14:state-changed-but-NoMemory:removematch"},
